@@ -20,3 +20,35 @@ package config
 //@ site call StructTag.Get assert key == "dst" ==> dst
 //@ site call StructTag.Lookup assert key == "dst" ==> dst
 //@ site call bind assert dst == caller_dst
+
+// Wiring the store up does not touch the database file: it is opened (and created if missing) by the store's
+// own New, through the SQL driver; nothing here creates, truncates, removes or writes a file (every property
+// about stored data: a start on an existing database finds what the previous run acknowledged).
+//@ func (*Config).store
+//@ props C06 C01 C02 C03 C04 C05 C07 C08 C09 C10 C20
+//@ abstract-calls ^(New|Errorf)$
+//@ abstract-calls external
+//@ requires c != nil
+//@ site deepcall os.Create assert false
+//@ site deepcall os.OpenFile assert false
+//@ site deepcall os.WriteFile assert false
+//@ site deepcall os.Truncate assert false
+//@ site deepcall os.Remove assert false
+//@ site deepcall os.RemoveAll assert false
+//@ site deepcall os.Rename assert false
+//@ ensures [body C06] calls("New") <= 1
+
+//@ func (*Config).AIOSubsystems
+//@ props C06 C01 C02 C03 C04 C05 C07 C08 C09 C10 C20
+//@ abstract-calls ^(New|store|Errorf)$
+//@ abstract-calls external
+//@ requires c != nil
+//@ site deepcall os.Create assert false
+//@ site deepcall os.OpenFile assert false
+//@ site deepcall os.WriteFile assert false
+//@ site deepcall os.Truncate assert false
+//@ site deepcall os.Remove assert false
+//@ site deepcall os.RemoveAll assert false
+//@ site deepcall os.Rename assert false
+// a store is always part of the subsystems (the kernel cannot answer anything without it)
+//@ ensures [body C06 C12] result1 == nil ==> calls("store") == 1
